@@ -5,5 +5,7 @@ UNITS = list(UNITS_ENTRY) + list(UNITS_SINGLE) + list(UNITS_BATCH) + [EnqueueUni
 ASSUMPTIONS = tuple(W_ASSUMPTIONS) + tuple(S_ASSUMPTIONS)
 from contracts.servlet import UNITS_FORWARD, UNITS_DEQUEUE
 UNITS += list(UNITS_FORWARD) + list(UNITS_DEQUEUE)
+from contracts.c11 import OnboardUnit      # noqa: E402  (process input queue: accepted requests reach the workers through the onboarding thread -- each once, unchanged, in order)
+UNITS += [OnboardUnit]
 NOT_DECIDED = ('pickling preserves values across process queues; SequentialServlet wiring is checked in C11',)
 SCENARIOS = [('', 'replay/scenarios/c02_server_battery.py'), ('', 'replay/scenarios/c02a_uid_recycle.py'), ('', 'replay/scenarios/c02b_record_before_enqueue.py')]
